@@ -27,6 +27,7 @@ for S in $seeds; do
   [ "$S" = "C14-3" ] && props="C14 C16"
   [ "$S" = "C07-4" ] && props="C07 C16"
   [ "$S" = "C19-4" ] && props="C19 C02"
+  [ "$S" = "C07-3" ] && props="C07 C02"
   [ "$S" = "C12-4" ] && props="C12 C02"
   [ "$S" = "C01-4" ] && props="C01 C17"
   [ "$S" = "C05-4" ] && props="C05 C17"
